@@ -20,11 +20,14 @@ class StallDetected(BaseException):
 
 
 class Stall:
-    budget = 300_000
+    budget = 200_000
     state = {'in_cb': False, 'n': 0, 'armed': True}
     hits: list[dict[str, Any]] = []
     installed = False
     max_seen = 0
+
+    nudges = 0          # how many times the frozen virtual clock was nudged forward to break a zero-time spin
+    _nudged_in_cb = 0
 
     @classmethod
     def _on_start(cls, code: Any, off: int) -> Any:
@@ -33,6 +36,20 @@ class Stall:
             return None
         st['n'] += 1
         if st['n'] > cls.budget and st['armed']:
+            # A real clock always advances while code runs; the virtual one is frozen inside a callback. Code that spins on
+            # "not yet time" float noise (a - b < c while b + c - a <= 0) ends after nanoseconds in reality: nudge the virtual
+            # clock by 1us a few times before calling it a stall. A spin that does not depend on time survives the nudges.
+            if cls._nudged_in_cb < 5:
+                try:
+                    import asyncio as _a
+                    loop = _a.get_event_loop_policy().get_event_loop() if False else _a.get_running_loop()
+                    loop._LoopTimeEventLoop__now += 1      # type: ignore[attr-defined]
+                    cls._nudged_in_cb += 1
+                    cls.nudges += 1
+                    st['n'] = 0
+                    return None
+                except Exception:
+                    pass
             st['armed'] = False
             stack = traceback.format_stack(limit=10)
             cls.hits.append({'stack': ''.join(stack[-8:]), 'where': f"{code.co_filename}:{code.co_name}"})
@@ -55,6 +72,7 @@ class Stall:
             st['n'] = 0
             st['armed'] = True
             st['in_cb'] = True
+            cls._nudged_in_cb = 0
             try:
                 return orig(self)
             finally:
